@@ -1,5 +1,7 @@
 import Iec.Lemmas.Srv104
 import Iec.Model.Cli104
+import Iec.Lemmas.Srv104NoAsdu
+import Iec.Lemmas.Cli104Deliver
 /-
 C05 — Received I-frames delivered exactly once, in order, for any TCP segmentation.
 
@@ -14,7 +16,8 @@ the length-octet case; cs104_connection.c:540-600 is the same function) over a s
 hands out octets chunk by chunk, never across a chunk boundary; `drain` is the connection
 loop calling it until the input is used up; `handleI` is the I-format branch of
 `handleMessage`.  Theorems are for every octet stream, every chunking (any sizes, any
-number of empty polls), every receive-buffer state, every connection state.
+number of empty polls), every receive-buffer state, every connection state.  Over every sequence of received messages:
+`delivered_exactly_once_in_order` (`Lemmas/Srv104NoAsdu.lean`).
 -/
 namespace Iec.Props.C05
 open Iec.Srv104 Iec.KWindow
@@ -62,6 +65,37 @@ example :
     let c : Sock := { chunks := [[0x68], [4, 7, 0, 0, 0, 0x68], [4, 0x43, 0, 0], [0]] }
     drain 40 [] a = drain 40 [] b ∧ drain 40 [] b = drain 40 [] c ∧
     (drain 40 [] a).1 = [[0x68, 4, 7, 0, 0, 0], [0x68, 4, 0x43, 0, 0, 0]] := by decide
+
+/-! ### every sequence of received messages -/
+
+/-- **exactly once, in arrival order, iff deliverable - over every history of received messages.** Take any sequence of
+messages (I-, S-, U-format, well-formed or not) handled on connection `i` until one of them closes it. What the
+application has been handed (the `asdu` observations of the log, in order) is what it had been handed before followed by
+exactly the payloads of the deliverable I-format APDUs - well framed, connection STARTED at that moment, N(S) = V(R)
+(= number of I-format APDUs accepted so far, C03 `nr_is_accepted_count`), N(R) inside the window, ASDU header complete -
+once each, in arrival order; nothing is handed over for any other message, and nothing after the closing one. With
+`segmentation_independence` (the messages are the frames of the octet stream whatever the chunking) this is the property
+for every octet stream and every segmentation. -/
+theorem delivered_exactly_once_in_order (s : Slave) (i : Nat) (hi : i < s.conns.length) (ms : List (List Nat)) :
+    asduLog (recvRun s i ms).1.log = asduLog s.log ++ (expectedDeliveries s i ms).map (fun a => (i, a)) :=
+  deliveries_spec ms s i hi
+
+/-- the first message that is an I-format APDU with a wrong N(S) on a started connection closes it and nothing of it or
+after it is delivered (instance of the above, stated for one message) -/
+theorem wrong_ns_delivers_nothing (s : Slave) (i : Nat) (hi : i < s.conns.length) (m : List Nat) (ms : List (List Nat))
+    (hns : frameNS m ≠ (s.conn i).vr) (hclose : (handleMessage s i m).2 = false) :
+    asduLog (recvRun s i (m :: ms)).1.log = asduLog s.log := by
+  rw [delivered_exactly_once_in_order s i hi]
+  have hnd : ¬ Deliverable s i m := fun h => hns h.2.2.2.2.2.1
+  simp [expectedDeliveries, hnd, hclose]
+
+/-- non-vacuity on a concrete history: two in-sequence I-format APDUs (a TESTFR act in between), then one with N(S) = 5
+instead of 2 - exactly the first two payloads are delivered, the third closes the connection, the fourth is not looked at -/
+def demoP5 : Params := { k := 12, w := 8, t0 := 10, t1 := 15, t2 := 10, t3 := 20, mode := 0, maxOpen := 0, lowQ := 4, highQ := 4, asduHdr := 6, replies := 0, nSlots := 1 }
+def demoS5 : Slave := { (create demoP5 []) with conns := [{ isUsed := true, isRunning := true, state := 1, maxSent := 12 }] }
+def demoI (ns : Nat) (x : Nat) : List Nat := [0x68, 14, ns * 2, 0, 0, 0, 1, 1, 3, 0, 1, 0, x, 0, 0, 1]
+example : expectedDeliveries demoS5 0 [demoI 0 7, [0x68, 4, 0x43, 0, 0, 0], demoI 1 8, demoI 5 9, demoI 2 10] = [(demoI 0 7).drop 6, (demoI 1 8).drop 6] ∧
+  (recvRun demoS5 0 [demoI 0 7, [0x68, 4, 0x43, 0, 0, 0], demoI 1 8, demoI 5 9, demoI 2 10]).2 = false := by decide
 
 /-! ### client role: the same delivery rule in `checkMessage` of cs104_connection.c (reassembly is the
 same algorithm, `Iec.Srv104.recvStep`, used by the client model) -/
@@ -118,6 +152,13 @@ theorem client_delivery (c : Cli) (buf : List Nat) (h7 : 7 ≤ buf.length) (hI :
 is interpreted; repaired behaviour, fix 448a2c2) -/
 theorem client_short_closes (c : Cli) (buf : List Nat) (h : buf.length < 6) : checkMessage c buf = (c, false) := by
   unfold checkMessage; simp [h]
+
+/-- **client: exactly once, in arrival order, iff deliverable - over every sequence of received messages** (up to the one
+that closes the connection): the `asdu` observations are what they were followed by exactly the payloads of the I-format
+APDUs with N(S) = V(R), N(R) inside the window and a complete ASDU header, once each, in arrival order -/
+theorem client_delivered_exactly_once_in_order (c : Cli) (ms : List (List Nat)) :
+    asduLogC (recvRunC c ms).1.log = asduLogC c.log ++ expectedDeliveriesC c ms :=
+  deliveries_specC ms c
 
 end Client
 
